@@ -18,6 +18,7 @@ struct Out {
     classes: std::collections::BTreeSet<String>,
     bad: Vec<String>,
     nbad: u64,
+    samples: Vec<String>,
 }
 
 impl Out {
@@ -48,6 +49,9 @@ fn check_int(o: &mut Out, b: &mut Buffer, v: i64) {
         Ok(Ok(())) => {}
     }
     let got = b.data().to_vec();
+    if o.samples.len() < 3 && o.cases % 200003 == 7 {
+        o.samples.push(format!("INTEGER {} -> {}", v, hex(&got)));
+    }
     if got != want {
         o.fail(&format!("int-encode:{}", cls), format!("SnmpInt({}) encoded as {} ; minimal form is {}", v, hex(&got), hex(&want)));
     }
@@ -137,6 +141,7 @@ fn main() {
         classes: Default::default(),
         bad: vec![],
         nbad: 0,
+        samples: vec![],
     };
     let mut b = Buffer::default();
     let mut rng = Rng::new(seed * 1000 + shard);
@@ -301,6 +306,9 @@ fn main() {
                         return if format!("{:?}", e) == "OutOfBuffer" { Err("OOB".into()) } else { Err(format!("encode {:?}", e)) };
                     }
                     let enc = b.data().to_vec();
+                    if o.samples.len() < 2 && o.cases % 997 == 3 {
+                        o.samples.push(format!("message v{} kind {} {} oids -> {} octets {}..", if ver == 2 { 3 } else { ver + 1 }, kind, noids, enc.len(), hex(&enc[..enc.len().min(40)])));
+                    }
                     strict_tree(&enc, 0, enc.len(), 0).map_err(|m| format!("not strict DER: {} in {}", m, hex(&enc[..enc.len().min(80)])))?;
                     let (pdu_back, ok_env) = match ver {
                         0 => {
@@ -368,11 +376,13 @@ fn main() {
     }
     let bad: Vec<String> = o.bad.iter().map(|x| jstr(x)).collect();
     let cls: Vec<String> = o.classes.iter().map(|x| jstr(x)).collect();
+    let smp: Vec<String> = o.samples.iter().map(|x| jstr(x)).collect();
     println!(
-        "{{\"cases\":{},\"nbad\":{},\"classes\":[{}],\"bad\":[{}]}}",
+        "{{\"cases\":{},\"nbad\":{},\"classes\":[{}],\"bad\":[{}],\"samples\":[{}]}}",
         o.cases,
         o.nbad,
         cls.join(","),
-        bad.join(",")
+        bad.join(","),
+        smp.join(",")
     );
 }
